@@ -33,6 +33,12 @@ def gen(rng, full):
             bits = "1" * total
             add(total, 0, "last", "crc32c", bits, total - 1, hsh, streams)
             cases[-1].update({"report_delay_ms": 420, "done_delay_ms": 350})
+    # a report that arrives in the middle of the regular pass (after the grace period, before the end record) while the display callbacks
+    # take their time: the chunk offered for verification must still be decided before the end record, and re-sent when it does not match
+    for total, streams in ((8, 1), (8, 2), (6, 1)) + (((12, 3), (10, 2)) if full else ()):
+        for hsh in ("bad", "good"):
+            add(total, 0, "last", "crc32c", "1" * total, total - 1, hsh, streams)
+            cases[-1].update({"report_delay_ms": 300 + 45 * 2, "progress_delay_ms": 45, "stats_delay_ms": 150, "done_delay_ms": 100, "midflight": True})
     n = 260 if full else 70
     for _ in range(n):
         total = rng.choice([1, 2, 3, 4, 7, 8, 9, 12, 16, 17, 33])
@@ -75,6 +81,13 @@ def run(ctx, exe, prop):
     for c, r, m in zip(cases, res, mod):
         if r.get("note") or not r.get("sender_ok"):
             diffs.append((c, r, m, f"the sender did not complete against the scripted receiver: {r.get('note') or r.get('sender_err')}"))
+            continue
+        if c.get("midflight"):
+            # the report meets a pass that is under way: how many chunks had gone out is timing; the generic oracles below apply
+            # (an unverifiable last chunk travels after all, the end record counts every frame and nothing follows it)
+            stats["midflight_report"] = stats.get("midflight_report", 0) + 1
+            if prop == "C17" and r.get("frames_after_end"):
+                ctx.violation("C17:chunk-after-end:late-report", f"frames {r['frames_after_end']} travelled after the end record (report delivered mid-pass, hash {c['hash']})", {"case": c, "result": r})
             continue
         if c.get("report_delay_ms"):
             # no plan was in force when the chunks were dispatched: every chunk travels once, the end record announces them all and is the
